@@ -746,6 +746,82 @@ func genDeadline(c *hx.Ctx) []*scriptScn {
 	return out
 }
 
+// Unblock at any time: on a Mux that was never blocked (created without WithBlockedRead), on one that was unblocked
+// at set-up, repeatedly, before and between traffic in both directions, and twice on a Mux that really was
+// blocked.  It must change nothing: everything written arrives, in order, on its own connection.
+func genUnblock(c *hx.Ctx) []*scriptScn {
+	var out []*scriptScn
+	ids := []uint32{1, 2}
+	for ti, transport := range []string{"unix", "pipe"} {
+		for plain := 0; plain < 4; plain++ { // bit 0: side 0 plain, bit 1: side 1 plain
+			for when := 0; when < 3; when++ {
+				for rep := 1; rep <= 2; rep++ {
+					if c.Quick() && (plain+when+rep+ti)%2 == 1 && transport == "pipe" {
+						continue
+					}
+					b := newBuilder("muxfault_unblock", transport, 256, ids, ids)
+					b.s.Plain = [2]bool{plain&1 == 1, plain&2 == 2}
+					b.s.Note = fmt.Sprintf("Unblock x%d, plain=%v, when=%d", rep, b.s.Plain, when)
+					unblock := func() {
+						for side := 0; side < 2; side++ {
+							for k := 0; k < rep; k++ {
+								b.add(act{Op: "unblock", Side: side})
+							}
+						}
+					}
+					traffic := func(seed int) {
+						for j := 0; j < 4; j++ {
+							side := (j + seed) % 2
+							b.write(side, 1, 3+5*j)
+							b.write(side, 2, j)
+							b.write(side, 1, 40)
+							b.readOrBg(1-side, 1)
+							b.readOrBg(1-side, 2)
+							b.readOrBg(1-side, 1)
+						}
+					}
+					if when == 0 {
+						unblock()
+					}
+					traffic(0)
+					if when >= 1 {
+						unblock()
+					}
+					traffic(1)
+					if when == 2 {
+						unblock()
+						traffic(0)
+					}
+					out = append(out, b.finish())
+				}
+			}
+		}
+	}
+	// a Mux that really is blocked: frames wait, the first Unblock lets them in, the second changes nothing
+	for _, transport := range []string{"unix"} {
+		for k := 1; k <= 3; k++ {
+			b := newBuilder("muxfault_unblock", transport, 256, ids, ids)
+			b.s.Blocked[1] = true
+			b.s.Note = fmt.Sprintf("blocked end, %d frames waiting, Unblock twice", k)
+			for j := 0; j < k; j++ {
+				b.write(0, ids[j%2], 2+j)
+			}
+			b.add(act{Op: "unblock", Side: 1})
+			b.add(act{Op: "unblock", Side: 1})
+			b.add(act{Op: "unblock", Side: 0})
+			for j := 0; j < k; j++ {
+				b.readOrBg(1, ids[j%2])
+			}
+			b.write(0, 1, 9)
+			b.readOrBg(1, 1)
+			b.write(1, 2, 4)
+			b.readOrBg(0, 2)
+			out = append(out, b.finish())
+		}
+	}
+	return out
+}
+
 // ---------------------------------------------------------------- listener wrapper
 
 func genListener(c *hx.Ctx) []*scriptScn {
@@ -812,7 +888,7 @@ func driveFault(c *hx.Ctx) error {
 		f    func(*hx.Ctx) []*scriptScn
 	}{{"muxfault_cut", genCut}, {"muxfault_overflow", genOverflow}, {"muxfault_close", genClose},
 		{"muxfault_closers", genClosers}, {"muxfault_blocked", genBlocked}, {"muxfault_raw", genRaw},
-		{"muxfault_open", genOpen}, {"muxfault_reopen", genReopen}, {"muxfault_deadline", genDeadline}, {"muxfault_listener", genListener}}
+		{"muxfault_open", genOpen}, {"muxfault_reopen", genReopen}, {"muxfault_deadline", genDeadline}, {"muxfault_unblock", genUnblock}, {"muxfault_listener", genListener}}
 	var all []*scriptScn
 	for _, sc := range corpus(c, "C11") {
 		all = append(all, sc.S)
@@ -848,6 +924,11 @@ func driveFault(c *hx.Ctx) error {
 		}
 		emitScript(c, i, s, res[i], shards[s.Stream])
 	}
+	// closing a connection while the peer sends on it, many cycles, each batch in its own child process
+	ks := genStress(c)
+	for i, rr := range runScenarios(c, "stress", ks, len(ks)) {
+		emitStress(c, i, ks[i].K, rr)
+	}
 	skippedCheck(c)
 	c.Stats.Exhaustive = false
 	c.Stats.Rule = "muxfault_cut: scripted Writes (0..64 bytes, thorough also a 2.5 KiB stream) on 1-3 ids plus an unopened one, the outgoing direction of one end cut by a byte budget at every byte offset (streams up to 160 bytes; thorough: every stream) or at every frame boundary +-2 and right after every header (longer streams in the quick tier), readers late or already blocked, net.Pipe and unix socketpair; " +
@@ -859,6 +940,8 @@ func driveFault(c *hx.Ctx) error {
 		"muxfault_reopen: on one id (a sibling id untouched): conn.Close, Open again (a new connection object), Close of the OLD handle once or twice more, optionally data over the replacement, then Mux.Close / the peer's Close / a transport failure at either end with a Read pending on the replacement or issued later; " +
 		"an act that depends on an Open that hung or failed is skipped, the hang itself is the observation; " +
 		"muxfault_deadline: SetDeadline / SetReadDeadline / SetWriteDeadline on one logical connection at either end, already expired or expiring during a 60 ms pause, before and between traffic on the OTHER connections in both directions, which has to arrive; a second deadline of another kind at the other end; orderly closes at the end (unix socketpair, which honours deadlines on the trunk, and the in-memory pipe); " +
+		"muxfault_unblock: Mux.Unblock once or twice at both ends before, between and after two-way traffic on two connections, on Muxes created without WithBlockedRead (never blocked) and on Muxes unblocked at set-up, and twice on a Mux that really was blocked with frames waiting: everything written has to arrive; " +
+		"muxfault_closestress: for 2 s (thorough 8 s) per transport and mode, cycles of Open (or Listen+Accept) at one end, a burst of 48 frames from the other end on that id, and conn.Close (or Listener.Close) somewhere inside the burst, on at least 4 processors, in child processes: a panic of the multiplexer is an observation (exit status and stderr of the child); afterwards a fresh connection must still deliver; " +
 		"muxfault_listener: every sequence of Accept/Close up to length 4 (thorough 7) on the listener wrapper. " +
 		"In three of five cut scenarios the failing trunk.Write returns a net.Error (Timeout or Temporary) and, when it was partial, the trunk takes bytes again afterwards (an expired write deadline, the peer drains again): the Writes that follow on other ids must fail all the same, a partial write is fatal whatever the error's type. " +
 		"A cut fails the outgoing direction of one end after an exact number of bytes (the failing trunk.Write returns the n bytes that still went out); after every fault the script waits until each Mux that has to close itself has closed its trunk, so that later calls do not race with its reader. Every call runs under a 20 s bound (1 s for the rest of a scenario once a call has hung; a hung scenario is run again alone before it is reported); a script ends with Close at both ends, a drain of every connection (Reads until 64 consecutive errors) and one more Write. Non-trivial: a fault was injected and at least one call was made after it. Compared in Coq: every call's result class and payload against the model replayed on the same script (select choices taken from the observation), the recorded trunk bytes, and the property's predicate on the observation."
@@ -965,7 +1048,7 @@ func emitScript(c *hx.Ctx, idx int, s *scriptScn, r scnResult, sh *hx.Shard) {
 		for _, e := range sd.events {
 			evs = append(evs, coqfmt.Pair(e.ev, e.obs))
 		}
-		return fmt.Sprintf("{| sd_raw := %s; sd_qlen := %s; sd_opened := %s; sd_events := %s |}", coqfmt.Bool(s.Raw[i]), coqfmt.N(uint64(s.QLen)), coqfmt.List(opened), coqfmt.List(evs))
+		return fmt.Sprintf("{| sd_raw := %s; sd_blocked := %s; sd_qlen := %s; sd_opened := %s; sd_events := %s |}", coqfmt.Bool(s.Raw[i]), coqfmt.Bool(s.Blocked[i]), coqfmt.N(uint64(s.QLen)), coqfmt.List(opened), coqfmt.List(evs))
 	}
 	sentTerm := func(i int) string {
 		var l []string
